@@ -51,7 +51,7 @@ pub struct Case {
 impl Case {
     pub fn to_json(&self) -> serde_json::Value {
         json!({
-            "transport": match self.transport { Transport::Unbounded => 0, Transport::Bounded(n) => n },
+            "transport": match self.transport { Transport::Unbounded => 0, Transport::Bounded(n) => n, Transport::SlowFlush => 9999 },
             "minor": self.minor,
             "fault_at": self.fault.as_ref().map(|f| f.at_op),
             "fault_eof": self.fault.as_ref().map(|f| f.kind == FaultKind::Eof),
@@ -65,7 +65,7 @@ impl Case {
     pub fn from_json(j: &serde_json::Value) -> Case {
         let t = j["transport"].as_u64().unwrap_or(0) as usize;
         Case {
-            transport: if t == 0 { Transport::Unbounded } else { Transport::Bounded(t) },
+            transport: if t == 0 { Transport::Unbounded } else if t == 9999 { Transport::SlowFlush } else { Transport::Bounded(t) },
             minor: j["minor"].as_u64().unwrap_or(20) as u32,
             fault: j["fault_at"].as_u64().map(|k| FaultPlan {
                 at_op: k,
@@ -686,9 +686,9 @@ pub fn run(tier: Tier) -> ! {
         vec![OP_ALL, OP_SENDER | OP_RECEIVER | OP_CALL, OP_CALL_DROP | OP_SYNC, OP_PROMISE | OP_SERVICE]
     };
     let transports: Vec<(Transport, u32)> = if tier == Tier::Thorough {
-        vec![(Transport::Unbounded, 20), (Transport::Bounded(1), 20), (Transport::Unbounded, 14), (Transport::Bounded(2), 17)]
+        vec![(Transport::Unbounded, 20), (Transport::Bounded(1), 20), (Transport::Unbounded, 14), (Transport::Bounded(2), 17), (Transport::SlowFlush, 20), (Transport::SlowFlush, 15)]
     } else {
-        vec![(Transport::Unbounded, 20), (Transport::Bounded(1), 14)]
+        vec![(Transport::Unbounded, 20), (Transport::Bounded(1), 14), (Transport::SlowFlush, 20)]
     };
     for ops in &op_sets {
         for (t, minor) in &transports {
